@@ -173,3 +173,65 @@ META["C15"] = {
     "floors": {"quick": {"prf_calls": 30000, "repeat_observations": 10000, "prng_replays": 300, "stat_permutations": 50000, "distinct_nontrivial": 500},
                "thorough": {"prf_calls": 1000000, "repeat_observations": 300000, "prng_replays": 10000, "stat_permutations": 1000000, "distinct_nontrivial": 15000}},
 }
+
+
+META["C16"] = {
+    "level": "exploration",
+    "rule": "six comparisons + Min/Max x signed/unsigned; ALL operand pairs for widths 1..6 (quick) / 1..8 (thorough), each as one "
+            "vectorised graph ([2^w,1,w] against [2^w,w]); for widths 7..16, 17, 24, 31, 32, 33, 63, 64, 65, 127, 128: equal operands, "
+            "adjacent values, sign boundaries, single-bit differences, complements and uniform pairs, under 6 broadcast shape pairs; "
+            "a case is one (operation, signedness, width, shape pair, operand set); all cases are non-trivial; distinct by hash of these",
+    "assumptions": COMMON_ASSUMPTIONS + [
+        "oracle = native integer comparison of the decoded operands (bit 0 first; two's complement when signed)",
+        "graphs are instantiated with run_instantiation_pass and evaluated with SimpleEvaluator (thorough: also after inlining in each mode)",
+    ],
+    "floors": {"quick": {"pairs_compared": 60000, "distinct_nontrivial": 800},
+               "thorough": {"pairs_compared": 1500000, "distinct_nontrivial": 20000}},
+    "exhaustive_note": "operand pairs of all widths up to the stated bound were enumerated completely for every operation and signedness",
+}
+
+META["C17"] = {
+    "level": "exploration",
+    "rule": "BinaryAdd (both overflow flags): all pairs for n in {1,2,4,8}, corner and uniform pairs for n in {16,32,64,128}; Mux: random "
+            "broadcast shape triples with bit and integer payloads; Clip2K: n in {8,16,32,64}, every k in 0..n-2, all values for n=8, "
+            "boundaries otherwise; LongDivision signed/unsigned: all (a, d != 0) for n in {2,4,8}, corners (min/-1, 0/d, |d|=1, a=+-d) "
+            "and uniform pairs for n in {16,32,64} (128 in thorough), mixed widths; a case is one graph evaluation over an operand "
+            "array; all non-trivial; distinct by hash of (operation, parameters, operand draw)",
+    "assumptions": COMMON_ASSUMPTIONS + [
+        "oracle = native arithmetic: (a+b) mod 2^n and carry, selector ? b : c, clip, floored division",
+        "zero divisors are outside the property and are skipped",
+    ],
+    "floors": {"quick": {"adder_pairs": 80000, "mux_elements": 2500, "clip_elements": 8000, "division_pairs": 60000, "distinct_nontrivial": 1000},
+               "thorough": {"adder_pairs": 150000, "mux_elements": 100000, "clip_elements": 8000, "division_pairs": 100000, "distinct_nontrivial": 20000}},
+    "exhaustive_note": "BinaryAdd n<=8, Clip2K n=8 and LongDivision n<=8 were enumerated over all operands",
+}
+
+
+def post_C10(agg, info):
+    import exec_check
+    v, cov = exec_check.check_dir(os.path.join(info["tmpdir"], "aux"), "c10", "C10", info["seed"], info["tier"], info["nshards"])
+    problems = []
+    floor = 8000 if info["tier"] == "quick" else 150000
+    if cov["outputs_compared"] < floor:
+        problems.append(f"too few events: outputs_compared={cov['outputs_compared']} < floor {floor}")
+    return v, cov, problems
+
+
+META["C10"] = {
+    "level": "exploration",
+    "rule": "one-operation graphs built through the real API: 27 operation classes (arithmetic, mixed multiply, dot incl. scalar "
+            "operands, matmul incl. rank-1 operands, gemm with both flags, sum over axis subsets, cumsum, get, slices with negative "
+            "steps / ellipsis / single indices, gather, axis permutations, reshape, stack with outer shapes, concatenate, array<->vector, "
+            "tuples, vectors, zip/repeat, A2B, B2A, plaintext truncation, zeros/ones/constants, permutation utilities) x all 11 scalar "
+            "types x random shapes up to rank 4 with size-1 broadcasting x uniform and extreme element values (0, 1, -1, min, max, "
+            ">= 2^64); every execution is recorded and re-computed by the NumPy reference interpreter; a case is one graph; all "
+            "non-trivial; distinct by hash of the serialized graph",
+    "assumptions": COMMON_ASSUMPTIONS + [
+        "oracle = monitors/refinterp.py: numpy object arrays of Python ints reduced mod 2^w (np.matmul, np.dot, broadcasting, basic "
+        "slicing, transpose, reshape, stack, concatenate, cumsum, take), values decoded from raw bytes by the documented layout",
+        "an evaluation error is accepted only where the reference semantics also reject (invalid permutation / index)",
+    ],
+    "floors": {"quick": {"executions_recorded": 8000, "distinct_nontrivial": 3000},
+               "thorough": {"executions_recorded": 150000, "distinct_nontrivial": 50000}},
+}
+PY_SERVES.extend(["C10", "C13", "C14", "C15"])
